@@ -403,6 +403,13 @@ for rep in (1, 2):
         UC("c02-uni-fallback-wit-r%d-h%d-n%d" % (rep, h, n), "uni", "uni_witness::<%d,0,%d,%d,0>()" % (rep, h, n), {"C02": tier, "C01": tier, "C03": tier}, "bounded", UNI_FNS[0] + ["Matcher::fuzzy_match_greedy_::<char,_>"],
            "fuzzy_indices (%s) with the slab refusing: same decision, W, score == scheme" % REPNAME[rep], unwind=max(h + 3, 7),
            bound="%s, haystack %d, needle %d, MatrixSlab::alloc stubbed to return None" % (REPNAME[rep], h, n), cost=6, stubs=CHAR_STUBS + REFUSE)
+# the real fuzzy_match_optimal on code-point haystacks (the entry obligations above replace it by
+# its contract; this is the callee-against-body side for H = char)
+for (h, n, st) in ((3, 2, 0), (4, 2, 1), (4, 2, 0)):
+    UC("c01-uni-opt-real-h%d-n%d-s%d" % (h, n, st), "uni", "uni_opt_real::<%d,%d,%d>()" % (h, n, st), {"C01": "quick", "C02": "quick", "C03": "quick"}, "bounded",
+       ["Matcher::fuzzy_match_optimal::<char, AsciiChar>", "MatcherDataView::<char>::setup", "MatcherDataView::score_row", "MatcherDataView::reconstruct_optimal_path"],
+       "the REAL fuzzy_match_optimal on a code-point haystack under prefilter_non_ascii's postcondition: Some <=> normalised subsequence of the window; W; score == fzf scheme; None appends nothing", unwind=7,
+       bound="code-point haystack window of %d chars%s from the model domain, ASCII needle %d, DEFAULT config, 256-byte slab" % (h - st, " preceded by one char" if st else "", n), cost=6, timeout=1500, stubs=CHAR_STUBS, core=(h == 3))
 UC("c01-uni-canary", "uni", "uni_canary()", {"C01": "quick", "C05": "quick"}, "bounded", [], "canary", unwind=8, expect="fail", no_cover=True, stubs=CHAR_STUBS)
 
 # ---------------------------------------------------------------------------
